@@ -143,3 +143,29 @@ def run(ck):
                 ck.ob("DEFUSE", f.path, "fresh-entry-slot-per-generation", fresh and not shared,
                       "the migrated node's value index is entries.len() taken before the push of the copied entry; the old index is only used to read the entry" if fresh and not shared else
                       "the migrated node can keep the OLD generation's entry index (%s): both generations then share one entry slot" % (how or "no fresh index from entries.len()"), f.loc(bi))
+
+    # a node whose value or stem is changed in place is marked as modified (origin = None); otherwise freezing reuses the
+    # persistent original of the node and the change is lost in the frozen state
+    nmut = 0
+    for name in ("insert", "delete", "delete_prefix"):
+        f = getfn(ck, "sc", E, LL + "MutableTrie::" + name)
+        if not f:
+            continue
+        vn = f.names()
+        clears, muts = [], []
+        for bi in f.reachable():
+            for st in f.stmts(bi):
+                if "lhs" in st and st["lhs"][1] and str(st["lhs"][1][-1]).endswith(":origin"):
+                    clears.append((bi, st["lhs"][0]))
+                rv = st.get("rv", {})
+                if rv.get("k") == "ref" and rv.get("mut") and rv["p"][1] and re.search(r":(value|path)$", str(rv["p"][1][-1])) and "MutableNode" in f.locals[rv["p"][0]]:
+                    muts.append((bi, rv["p"][0], str(rv["p"][1][-1]).split(":")[-1]))
+                if "lhs" in st and st["lhs"][1] and re.search(r":(value|path)$", str(st["lhs"][1][-1])) and "MutableNode" in f.locals[st["lhs"][0]]:
+                    muts.append((bi, st["lhs"][0], str(st["lhs"][1][-1]).split(":")[-1]))
+        for k, (bi, l, fld) in enumerate(muts):
+            ok = any(l2 == l and (f.dominates(b2, bi) or f.dominates(bi, b2)) for (b2, l2) in clears)
+            nmut += 1
+            ck.ob("DEFUSE", f.path, "modified-node-marked:%s.%s#%d" % (vn.get(l, "_%d" % l), fld, k), ok,
+                  "the node whose %s is changed has its origin cleared on the same path" % fld if ok else
+                  "`%s.%s` is changed but `%s.origin` is not cleared on that path: freeze() will reuse the node's persistent original and drop the change" % (vn.get(l, l), fld, vn.get(l, l)), f.loc(bi))
+    ck.floor("DEFUSE", "in-place changes of a node's value or stem", nmut, 6)
